@@ -442,6 +442,8 @@ TrBaDataSet == IsEv("ba.data_set") /\ LET ev == T[l] IN BaStep(BaSet(ev.obj, ASe
 TrBaResize == IsEv("ba.resize") /\ LET ev == T[l] IN BaStep(BaSet(ev.obj, AResize(BaVal(ev.obj), ev.n)), <<>>, <<>>)
 TrBaReserve == IsEv("ba.reserve") /\ LET ev == T[l] IN BaStep(objs, <<1>>, <<ev.cap_ok>>)
 TrBaPush == IsEv("ba.push") /\ LET ev == T[l] IN BaStep(BaSet(ev.obj, APush(BaVal(ev.obj), ev.value)), <<>>, <<>>)
+\* v.push_back(w[i]), w possibly v itself: the element is read before anything moves (value semantics)
+TrBaPushFrom == IsEv("ba.push_from") /\ LET ev == T[l] IN BaStep(BaSet(ev.obj, APush(BaVal(ev.obj), BaVal(ev.src)[ev.pos + 1])), <<>>, <<>>)
 TrBaPop == IsEv("ba.pop") /\ LET ev == T[l] IN BaStep(BaSet(ev.obj, APop(BaVal(ev.obj))), <<>>, <<>>)
 TrBaClear == IsEv("ba.clear") /\ LET ev == T[l] IN BaStep(BaSet(ev.obj, <<>>), <<>>, <<>>)
 B01(b) == IF b THEN 1 ELSE 0
@@ -450,7 +452,7 @@ TrBaCmp == IsEv("ba.cmp") /\ LET ev == T[l]  r == RelOps(ACmp(BaVal(ev.obj), BaV
 TrBaIter == IsEv("ba.iter") /\ LET ev == T[l] IN BaStep(objs, <<BaVal(ev.obj)>>, <<ev.out>>)
 TrBaDel == IsEv("ba.del") /\ LET ev == T[l] IN BaStep(Del(ev.obj), <<>>, <<>>)
 BaNext == TrBaNew \/ TrBaAssign \/ TrBaIndexSet \/ TrBaIndexGet \/ TrBaDataSet \/ TrBaResize \/ TrBaReserve
-          \/ TrBaPush \/ TrBaPop \/ TrBaClear \/ TrBaCmp \/ TrBaIter \/ TrBaDel
+          \/ TrBaPush \/ TrBaPushFrom \/ TrBaPop \/ TrBaClear \/ TrBaCmp \/ TrBaIter \/ TrBaDel
 
 -----------------------------------------------------------------------------
 (* C10: masked words, states, keys - by value.  objs holds the represented *)
